@@ -230,6 +230,10 @@ Definition check_history (c0 : Z) (ops os : list sx) : verdict :=
 
 Definition check (c : sx) : verdict :=
   match c with
+  | SList [SList [SInt 6; SInt _; SInt _]; SList [SInt (-5); SInt k; _]] =>
+      (* the time-to-live at sub-second resolution (sweeps just before / at / after issue instant + 60 s
+         for calls issued at several phases of the wall clock), evaluated on the Go side *)
+      if k =? 0 then VOk else if k =? 5 then VPropFail 5 else if k =? 3 then VPropFail 3 else VPropFail 7
   | SList [SList [SInt 3; SInt _; SInt _]; SList [SInt (-4); SInt k; _]] =>
       (* a sweep on its own goroutine racing a late response and a new call that is given the same
          number, evaluated on the Go side: k = 0 ok, else the sentence *)
@@ -246,7 +250,10 @@ Definition check (c : sx) : verdict :=
   | SList [_; SList [SInt (-1)]] => VOk    (* inconclusive run: a blocking caller neither returned nor parked *)
   | SList [SList [SInt _]; SList [SInt (-2); SInt k; _]] =>
       (* all 65535 numbers outstanding: evaluated on the Go side (k = which check failed) *)
-      if k =? 0 then VOk else if (k =? 2) || (k =? 8) || (k =? 10) then VPropFail 1 else VPropFail 2
+      (* 11: the refusal was delivered under the client's mutex: the re-entering callback never returns
+         (goroutine dump); 9: inconclusive *)
+      if (k =? 0) || (k =? 9) then VOk
+      else if (k =? 2) || (k =? 8) || (k =? 10) || (k =? 11) then VPropFail 1 else VPropFail 2
   | SList [SList [SInt c0; SList ops]; SList os] =>
       match map_opt hop_of ops, map_opt obs_of os with
       | Some ops, Some os =>
